@@ -539,7 +539,8 @@ def quantile(h: Distogram, value: float) -> Optional[float]:  # pragma: no cover
     elif q_count >= (total_count - (fl / 2)):  # right values
         base = q_count - (total_count - (fl / 2))
         fraction = base / (fl / 2)
-        result = vl + (fraction * (h.max - vl))
+        # the last quantile is the maximum itself, whatever the rounding
+        result = h.max if fraction >= 1 else vl + (fraction * (h.max - vl))
 
     else:
         mb = q_count - f0 / 2
@@ -550,4 +551,5 @@ def quantile(h: Distogram, value: float) -> Optional[float]:  # pragma: no cover
         fraction = (mb - sum(mids[:i])) / mids[i]
         result = vi + (fraction * (vj - vi))
 
-    return result
+    # rounding must not carry the estimate outside the observed range
+    return min(max(result, h.min), h.max)
